@@ -219,8 +219,8 @@ class E1(Component):
             if f is None:
                 continue
             desc = "%s(%s, %r)" % (CLS[ftype], m, t)
-            # SuffixFilter.filter_tables is a quadratic nested loop and its only assertion here
-            # is the open finding KF-1: large batches are left to filter_pair
+            # SuffixFilter.filter_tables is a quadratic nested loop: large batches are left to
+            # filter_pair (same decision procedure, pair-level token order)
             df = None
             if ftype != "suffix" or len(triples) <= 40:
                 df = ctx.lib(f.filter_tables, L, R, "id", "id", "v", "v", show_progress=False)
